@@ -198,7 +198,7 @@ pub struct Batch {
 }
 
 fn run_emit(cases: &[DetCase]) -> Result<Vec<Option<Vec<Vec<u8>>>>, Fail> {
-    let exe = std::env::current_exe().map_err(|e| Fail::new("harness:emit", e.to_string()))?;
+    let exe = crate::engine::own_exe();
     let mut child = Command::new(exe)
         .arg("emit")
         .stdin(Stdio::piped())
